@@ -282,6 +282,16 @@ def r7_nested_concrete(repo):
                       "otherwise a raw generic class ends up inside the type arguments of a returned type, where the outer "
                       "to_type does not look; found concrete_only=%s include_self=%s"
                       % (src(co) if co is not None else "default False", src(inc) if inc is not None else "default")))
+    # every nested search is limited by the type parameter's (substituted) bound: a candidate outside it is not a
+    # legal type argument whatever the variance says
+    prov = Prov(f.node, passthrough={"substitute_type"})
+    for i, c in enumerate(cs):
+        b = kwarg(c, "bound", 4)
+        leaves = [src(l) for l in prov.sources(b) if isinstance(l, ast.AST)] if b is not None else []
+        okb = b is not None and any(l.endswith(".bound") and l.startswith(f.params[0] + ".") for l in leaves)
+        obs.append(Ob("C09-R7", "_find_candidate_type_args:_find_types#%d:limited-by-the-parameter's-bound" % i, _w(f, c), okb,
+                      "the search must receive the bound of `%s` (substituted with the current assignments) as its `bound` "
+                      "argument; found %s deriving from %s" % (f.params[0], src(b) if b is not None else "no bound argument", leaves[:4])))
     # direction of each nested search: along the query direction in covariant position, against it in contravariant one
     gs_name = f.params[3]
     for i, c in enumerate(cs):
